@@ -426,6 +426,25 @@ def _api_cases(rng, full):
     for name, r, sub, inv in FIRSTS:
         for sc in (scripts[1], scripts[3], [rng.choice(attrs) for _ in range(rng.randint(3, 7))]):
             out.append(base(name, r, "E", sub, inv=inv, family="script-xh", script=sc, strategy_fixed="all"))
+    # --- rules with HAND-WRITTEN h_pairs, handed over as SynRule(tpl, implicit_h=False) objects to a default-mode reactor (used as they
+    # are; _explicit_h works on the caller's pair ids): a balanced proton transfer, two groups, and rules whose group has more
+    # hydrogens to give than to take: _explicit_h raises, the first its_list read raises and later reads return the glued graphs
+    # (stale cache after an exception: model rd_its, theorem C03_reads_after_crash)
+    def raw_tpl(atoms, edges=()):
+        return {"graph": {"nodes": [[n, {"element": el, "charge": qg, "atom_map": n, "hcount": hg, "aromatic": False,
+                                         "typesGH": [[el, False, hg, qg, []], [el, False, hh, qh, []]], **({"h_pairs": hp} if hp is not None else {})}]
+                                    for n, el, hg, hh, qg, qh, hp in atoms],
+                          "edges": [[u, v, {"order": [a, b], "standard_order": a - b}] for u, v, a, b in edges]}}
+    RAW = [("proton-transfer-pairs", raw_tpl([(10, "O", 1, 0, 0, -1, [1]), (12, "N", 0, 1, 0, 1, [1])]), "CO.N", ["its_list", "smarts_list", "its", "smiles_list"]),
+           ("two-groups", raw_tpl([(1, "O", 1, 0, 0, -1, [1]), (2, "N", 0, 1, 0, 1, [1]), (3, "S", 1, 0, 0, -1, [2]), (4, "N", 0, 1, 0, 1, [2])]), "CO.N.CS.CN", ["smarts_list", "its_list", "mapping_count"]),
+           ("crash-nobody-takes", raw_tpl([(1, "O", 1, 0, 0, -1, [1])]), "CO", ["its_list", "its_list", "its", "smarts_list", "smiles_list", "its_list"]),
+           ("crash-first-smarts", raw_tpl([(1, "O", 1, 0, 0, -1, [1])]), "CCO.O", ["smarts_list", "smarts_list", "its_list", "mapping_count"]),
+           ("crash-two-donors-one-place", raw_tpl([(1, "O", 1, 0, 0, -1, [1]), (2, "S", 1, 0, 0, -1, [1]), (3, "N", 0, 1, 0, 1, [1])]), "CO.CS.CN", ["mappings", "its_list", "its_list", "smarts"]),
+           ("no-pairs-counts-only", raw_tpl([(10, "O", 1, 0, 0, -1, None), (12, "N", 0, 1, 0, 1, None)]), "CO.N", ["its_list", "smarts_list"])]
+    for name, tplj, sub, sc in RAW:
+        c = dict(kind="api", tpl=tplj, sub=sub, invert=False, strategy="all", mode="E", family="script-raw", tpl_form="synrule-raw", script=sc)
+        c["name"] = "api:%s:script-raw:%s:%s" % (name, sub, ",".join(sc))
+        out.append(c)
     # --- the caller's substrate OBJECT used, edited in place (attributes of existing atoms), used again
     for name, smi, r1, m1, edits, r2, m2 in EDIT_SCENARIOS:
         for form in (None, "syngraph"):
@@ -475,7 +494,7 @@ def _its_json(g):
     for n, d in g.nodes(data=True):
         t = d["typesGH"]
         ns.append([n, [t[0][0], bool(t[0][1]), int(t[0][2]), int(t[0][3]), list(t[0][4])],
-                   [t[1][0], bool(t[1][1]), int(t[1][2]), int(t[1][3]), list(t[1][4])]])
+                   [t[1][0], bool(t[1][1]), int(t[1][2]), int(t[1][3]), list(t[1][4])]] + ([[int(x) for x in d["h_pairs"]]] if "h_pairs" in d else []))
     es = [[u, v, K.half(d["order"][0]), K.half(d["order"][1]), K.half(d.get("standard_order", 0.0))] for u, v, d in g.edges(data=True)]
     return [ns, es]
 
@@ -552,7 +571,7 @@ def prepare(case):
         if case.get("script"):
             # the state machine needs ALL mappings and re-matches (no truncation) and RDKit's strings for every result
             full = len(rec.glue_calls) <= MAXM and all(rm is None or len(rm) <= MAXR for _, rm, _, _ in rec.glue_calls)
-            if full and rec.its_err is None:
+            if full and (rec.its_err is None or case.get("tpl_form") == "synrule-raw"):
                 case["pre"]["script"] = [K.SCRIPT_OPS[a] for a in case["script"]]
                 case["pre"]["sers"] = K.side_smiles(rec.its_list)
     except Exception as e:
@@ -621,7 +640,7 @@ def _impl_one(case):
     left = rule.left.raw
     mode = case.get("mode", "E")
     pat = h_to_implicit(left) if has_XH(left) else left
-    stripped = mode != "I" and not (case.get("tpl_form") == "synrule" and case.get("invert"))   # an inverted SynRule object is not prepared again
+    stripped = mode != "I" and not (case.get("tpl_form") == "synrule" and case.get("invert")) and case.get("tpl_form") != "synrule-raw"   # an inverted SynRule object is not prepared again; a raw one never was
     obs = [[K.rc_obs(rule.rc.raw, stripped), K.mol_obs(left), K.mol_obs(rule.right.raw)], 1 if rec.flag else 0, K.mol_obs(pat)]
     show_ex = mode == "E" and rec.its_err is None
     after = list(rec.its_list)
@@ -662,7 +681,8 @@ def _impl_one(case):
     obs.append(1)                            # the explicit-hydrogen route is taken exactly when the pattern keeps X-H (model: flag vs re-matches)
     # rule_link_okb: the rule's left graph is the reactant side of its rule graph (model recomputes it);
     # default_tpl_okb: do the default-mode end-to-end theorems apply to this template?  (computed independently on both sides)
-    obs = [obs, 1, K.default_tpl_ok(*_its_json(rec.tpl))]
+    _tj = _its_json(rec.tpl)
+    obs = [obs, 1, K.default_tpl_ok([row[:3] for row in _tj[0]], _tj[1])]
     if case.get("reads"):
         return [obs, 1 if rec.reads_ok else 0]   # repeated reads of the cached attributes all gave the first value
     if pre is not None and pre.get("script") is not None:
@@ -694,7 +714,8 @@ def coq_case(case):
     host = "(LG %s %s)" % (K.cl(["(%s, %s)" % (K.cN(n), _c_t5((el, ar, hc, ch, nb))) for n, el, ar, hc, ch, nb in hn]),
                            K.cl(["(%s, %s, %s)" % (K.cN(u), K.cN(v), K.cZ(o)) for u, v, o in he]))
     tn, te = pre["tpl"]
-    tpl = "(LG %s %s)" % (K.cl(["(%s, IN %s %s 0%%Z None)" % (K.cN(n), _c_t5(g), _c_t5(h)) for n, g, h in tn]),
+    chp = lambda row: "None" if len(row) < 4 else "(Some %s)" % K.cl([K.cN(x) for x in row[3]])
+    tpl = "(LG %s %s)" % (K.cl(["(%s, IN %s %s 0%%Z %s)" % (K.cN(row[0]), _c_t5(row[1]), _c_t5(row[2]), chp(row)) for row in tn]),
                           K.cl(["(%s, %s, (%s, %s, %s))" % (K.cN(u), K.cN(v), K.cZ(a), K.cZ(b), K.cZ(s)) for u, v, a, b, s in te]))
     calls = []
     for m, remaps in pre["calls"]:
@@ -702,25 +723,27 @@ def coq_case(case):
         cr = "None" if remaps is None else "(Some %s)" % K.cl([K.cl(["(%s, %s)" % (K.cN(p), K.cN(h)) for p, h in x]) for x in remaps])
         calls.append("(%s, %s)" % (cm, cr))
     mode = case.get("mode", "E")
+    raw = case.get("tpl_form") == "synrule-raw"      # SynRule(tpl, implicit_h=False) handed to a reactor in the default mode: used as it is
     tbls = K.cl([K.cl([K.cl([K.cl([K.cN(x) for x in o]) for o in tbl]) for tbl in row]) for row in pre.get("ords", [])])
-    t = "%s %s %s %s %s %s %s %s" % ("run_c03ro" if case.get("tpl_form") == "synrule" else "run_c03o", K.cb(case.get("invert", False)), K.cb(mode == "I"), K.cb(mode == "E"), host, tpl, K.cl(calls), tbls)
+    is_obj = case.get("tpl_form") in ("synrule", "synrule-raw")
+    t = "%s %s %s %s %s %s %s %s" % ("run_c03ro" if is_obj else "run_c03o", K.cb(case.get("invert", False)), K.cb(mode == "I" or raw), K.cb(mode == "E"), host, tpl, K.cl(calls), tbls)
     # the prepared rule's left graph IS the reactant side of its rule graph as far as matching goes (hypothesis of
     # C03_its_list_instances_matcher that concerns the rule alone): evaluated on every case
     # ... and the template-side hypotheses of the default-mode capstones as one boolean of the template as written (default_tpl_okb;
     # the implementation side computes it independently: K.default_tpl_ok)
     t = "L [%s; tbool (rule_link_okb (mk_rule %s %s %s %s)); tbool (default_tpl_okb %s)]" % (
-        t, K.cb(case.get("invert", False)), K.cb(mode == "I"), K.cb(case.get("tpl_form") == "synrule"), tpl, tpl)
+        t, K.cb(case.get("invert", False)), K.cb(mode == "I" or raw), K.cb(is_obj), tpl, tpl)
     if case.get("reads"):
         return "L [%s; tbool true]" % t
     if pre.get("script") is not None:
         cstr = lambda b: "None" if b is None else "(Some %s)" % K.cl([K.cN(x) for x in b])
         sers = K.cl(["(%s, %s)" % (cstr(a), cstr(b)) for a, b in pre["sers"]])
-        rd = "run_reads %s %s %s %s %s %s %s %s %s %s" % (K.cb(case.get("invert", False)), K.cb(mode == "I"), K.cb(mode == "E"),
-                                                   K.cb(case.get("tpl_form") == "synrule"), host, tpl, K.cl(calls), tbls, sers,
+        rd = "run_reads %s %s %s %s %s %s %s %s %s %s" % (K.cb(case.get("invert", False)), K.cb(mode == "I" or raw), K.cb(mode == "E"),
+                                                   K.cb(is_obj), host, tpl, K.cl(calls), tbls, sers,
                                                    K.cl([K.cN(x) for x in pre["script"]]))
         # the hypotheses of C03_its_list_instances_matcher (matcher contract on the rule's left graph, left_of_rcb, edges_closedb, wf) as one boolean
-        mh = "tbool (matcher_hyps_okb (mk_rule %s %s %s %s) %s %s)" % (K.cb(case.get("invert", False)), K.cb(mode == "I"),
-                                                                       K.cb(case.get("tpl_form") == "synrule"), tpl, host, K.cl(calls))
+        mh = "tbool (matcher_hyps_okb (mk_rule %s %s %s %s) %s %s)" % (K.cb(case.get("invert", False)), K.cb(mode == "I" or raw),
+                                                                       K.cb(is_obj), tpl, host, K.cl(calls))
         return "L [%s; %s; %s]" % (t, rd, mh)
     return t
 
@@ -894,8 +917,9 @@ def distribution(cases, obss):
                     d["explicit_h_stage"] += 1
         tn = (pre.get("tpl") or [[], []])[0]
         if c.get("mode", "E") != "I" and pre.get("tpl"):
-            k = "default_mode_end_to_end_theorem_applies" if K.default_tpl_ok(*pre["tpl"]) else "default_mode_template_outside_the_end_to_end_theorem"
+            k = "default_mode_end_to_end_theorem_applies" if K.default_tpl_ok([row[:3] for row in pre["tpl"][0]], pre["tpl"][1]) else "default_mode_template_outside_the_end_to_end_theorem"
             d[k] = d.get(k, 0) + 1
+        tn = [row[:3] for row in tn]
         if any(g[3] != h[3] for _, g, h in tn):
             d["charge_changing_templates"] += 1
         if any(g[2] != h[2] for _, g, h in tn) or any(g[0] == "H" for _, g, h in tn):
